@@ -236,6 +236,18 @@ def run(run: Run):
     run.guard('C11.R1', r1_r3_r5, run, rt)
     run.guard('C11.R2', r2, run, rt)
     run.guard('C11.R4', check_plumbing, run, 'C11.R4', src, em, rt, FUNCS)
+    # an aggregate can only fold the numeric cells of an area if the reader delivered every cell of it (a dropped row turns
+    # its zeros into blanks, which the numeric filter then ignores): shared with C18.R1
+    from .common import borrow
+    from . import c18
+    run.rule('C11.R6', 'the reader delivers every row and cell of an area (append-only data lists; shared with C18.R1)')
+    borrow(run, 'C11.R6', c18.r1, src)
+    run.floor('C11.R6', 5)
+    from . import c02
+    run.rule('C11.R7', 'an area argument enumerates every cell incl. the last row/column, each once (shared with C02.R2/R4)')
+    borrow(run, 'C11.R7', c02.r2, src)
+    borrow(run, 'C11.R7', c02.r4_r5, src)
+    run.floor('C11.R7', 14)
     run.floor('C11.R1', 10)
     run.floor('C11.R2', 50)
     run.floor('C11.R3', 14)
